@@ -396,6 +396,26 @@ def execute(sc):
     if u0.shape != u1.shape or not numpy.allclose(u0, u1, rtol=1e-12, atol=1e-12 * scale, equal_nan=True):
         V.append(viol("bv-row-order-invariant", CE, "shuffle", "estimates change when the rows of the phenotype table are shuffled"))
         return _out(sc, V, log, faults, probes, True)
+    # without a genotype matrix the estimates cover the phenotyped taxa; the result must not depend on the row order either
+    try:
+        b0, b1 = bvp.estimate(df, None), bvp.estimate(dfs, None)
+    except Exception as e:
+        V.append(viol("bv-estimation-completes", CE, "raises:%s|no-genotypes" % type(e).__name__, "%s: %s" % (type(e).__name__, e)))
+        return _out(sc, V, log, faults, probes, True)
+    t0, t1 = [str(x) for x in b0.taxa.tolist()], [str(x) for x in b1.taxa.tolist()]
+    v0, v1 = numpy.asarray(b0.unscale(), dtype=float), numpy.asarray(b1.unscale(), dtype=float)
+    if t0 != t1 or v0.shape != v1.shape or not numpy.allclose(v0, v1, rtol=1e-12, atol=1e-12 * scale, equal_nan=True):
+        V.append(viol("bv-row-order-invariant", CE, "shuffle|no-genotypes", "without a genotype matrix the estimates are listed as %s for the table and as %s for the same table with shuffled rows" % (t0, t1)))
+        return _out(sc, V, log, faults, probes, True)
+    if sorted(t0) != sorted(set(names)):
+        V.append(viol("bv-is-mean-of-records", CE, "taxa|no-genotypes", "estimates listed for %s, phenotyped taxa are %s" % (t0, sorted(set(names)))))
+        return _out(sc, V, log, faults, probes, True)
+    for i, nme in enumerate(t0):
+        m = vals[nme].mean(0)
+        if numpy.any(numpy.isnan(v0[i])) or numpy.any(numpy.abs(v0[i] - m) > 1e-12 * scale * 8):
+            V.append(viol("bv-is-mean-of-records", CE, "value|no-genotypes", "taxon %s: estimate %s, mean of its records %s" % (nme, v0[i].tolist(), m.tolist())))
+            return _out(sc, V, log, faults, probes, True)
+    faults["estimated_without_genotype_matrix"] = 1
     log.append(["bv", adig(u1)])
     return _out(sc, V, log, faults, probes, True)
 
